@@ -28,6 +28,8 @@ var sliceMergeRule = map[string]string{
 func C09(e *Env) {
 	r := e.R
 	e.analysedBase()
+	yamlKeysRule(e, "R11.12")
+	e.R.Rule("R11.12", "key table (shared with C11): what a file contributes to the merge is what the decoder recognises", 25)
 	r.Rule("R09.1", "the values returned by Merge, mergeMeta and mergeService define every field of their struct; field K is combinator(first.K, second.K) with the combinator its documented class requires (pointer: later non-nil wins; map: key-wise union, later wins; services: per-key mergeService; arguments: later non-empty replaces; calls/tags/decorators: earlier ++ later)", 22)
 	r.Rule("R09.1c", "the combinators themselves have the documented selection behaviour, decided by abstract evaluation over {nil, empty, non-empty} operands (mergePtr, mergeArgs) and by the order of their stores (mergeMap, mergeServices)", 4)
 	r.Rule("R09.2", "the fold is *i = input.Merge(*i, decoded): accumulator first, the file just read second", 1)
